@@ -36,6 +36,7 @@ func TestC15Close(t *testing.T) {
 		if stallReader {
 			app[0].Pauses = []sim.Pause{{AfterBytes: 0, Ms: 1 << 40}} // full queues at close time
 		}
+		writeErrAt := rapid.SampledFrom([]int{-1, -1, 0, 1}).Draw(rt, "socketWriteErrorAtEnd") // the transport starts failing just before the closes
 		poolMode := rapid.SampledFrom([]int{kcp.VerifPoolOff, kcp.VerifPoolQuarantine, kcp.VerifPoolQuarantine, kcp.VerifPoolLIFO}).Draw(rt, "poolMode")
 		var leaks []string
 		var pool kcp.VerifPoolStats
@@ -110,6 +111,12 @@ func TestC15Close(t *testing.T) {
 			s.Quiesce()
 			midTransfer = !p.Complete()
 			blockedAtClose = len(s.BlockedCalls())
+			if writeErrAt >= 0 {
+				p.Conn[writeErrAt].InjectWriteError(errInjectedWrite)
+				if g := rapid.SampledFrom([]int{0, 1, 25, 250}).Draw(rt, "afterWriteErrorMs"); g > 0 {
+					s.SleepTo(s.Now() + int64(g)) // some transmissions fail and record the error
+				}
+			}
 			// the accepted session may not exist yet: then the listener still owns whatever it created
 			for i, o := range order {
 				p.Close([]int{o})
@@ -155,6 +162,9 @@ func TestC15Close(t *testing.T) {
 		}
 		if stallReader {
 			cl = append(cl, "closed_with_full_queues")
+		}
+		if writeErrAt >= 0 {
+			cl = append(cl, "socket_write_error_before_close")
 		}
 		if cfg.Listener {
 			cl = append(cl, "via_listener")
